@@ -50,10 +50,24 @@ def shards(tier, seed):
             'big': ([131000] if i == 2 else []) if q
             else ([4000, 131000] if i in (3, 4) else []),
         })
-    return out
+    for k in range(8):
+        out.append({'name': 'leak%d' % k, 'what': 'leak', 'i': 99, 'k': k,
+                    'mem_gib': 4, 'size': 24000 if tier == 'quick' else 60000,
+                    'reps': 40 if tier == 'quick' else 250})
+    return common.with_configs(out, [common.PY_O, common.LOG_DEBUG,
+                                     common.W_ERROR],
+                               take=2 if tier == 'quick' else 4)
 
 
 def cases(shard, rnd):
+    if shard.get('what') == 'leak':
+        from ..gen import faults
+        for k, (data, label) in enumerate(faults.leak_probe_frames(
+                rnd, shard['size'])):
+            if k == shard['k']:
+                yield {'leak': True, 'data': data, 'label': label,
+                       'reps': shard['reps']}
+        return
     k = 0
     for data, label in corpus.hostile(shard, rnd):
         k += 1
@@ -71,7 +85,55 @@ def budgets(data):
             'mem': (1 << 20) + (2 * d + 64) * n}
 
 
+def _leak_case(case, rec):
+    """Memory RETAINED after a long sequence of decodes of one frame (not
+    the per-call peak): rejected inputs must not pile up."""
+    import gc
+    from pamqp import frame
+    data, reps = case['data'], case['reps']
+    n = len(data)
+    rec.ev()
+    gc.collect()
+    tracemalloc.start()
+    try:
+        gc.collect()
+        base = tracemalloc.get_traced_memory()[0]
+        outcome = None
+        for _ in range(reps):
+            try:
+                with sysmon.budget(40 * n + 20000, 40 * n + 20000):
+                    frame.unmarshal(data)
+                outcome = 'returned'
+            except sysmon.BudgetExceeded:
+                outcome = 'budget'
+                break
+            except Exception as e:
+                outcome = type(e).__name__
+                del e
+        gc.collect()
+        held = tracemalloc.get_traced_memory()[0] - base
+    finally:
+        tracemalloc.stop()
+    rec.count('leak_sequences')
+    rec.count('inputs:' + case['label'].split(':')[0])
+    rec.nt(canon.digest((case['label'], reps)))
+    rec.maxi('max_retained_bytes_after_sequence', held)
+    limit = (256 << 10) + 2 * n
+    if held > limit:
+        rec.violation('memory-retained-across-decodes',
+                      'after %d decodes (%s) of one %d-byte frame (%s) %d '
+                      'bytes are still held (budget %d)'
+                      % (reps, outcome, n, case['label'], held, limit),
+                      {'leak': True, 'data': data, 'label': case['label'],
+                       'reps': reps})
+    if len(rec.samples) < 3:
+        rec.sample({'label': case['label'], 'len': n, 'decodes': reps,
+                    'outcome': outcome, 'retained_bytes': held})
+
+
 def run_case(case, rec):
+    if case.get('leak'):
+        return _leak_case(case, rec)
     from pamqp import frame
     data = case['data']
     label = case['label']
@@ -159,6 +221,10 @@ def gates(m, tier):
               'big-array-of-void', 'deep-fault'):
         if not m.counters.get('inputs:' + k):
             out.append('no input of class %s' % k)
+    if not m.counters.get('leak_sequences'):
+        out.append('no retained-memory sequence ran')
+    if not m.counters.get('inputs:deep-length-skew'):
+        out.append('no multi-level length-skew input')
     if not m.counters.get('memory_traced_calls'):
         out.append('no call ran under tracemalloc')
     return out[:10]
